@@ -83,8 +83,9 @@ def run(ctx):
         "tweak_report_drift, not as a violation",
         "elements and links that the model's program never reads are filled with seeded random content "
         "(exhaustive over what is read, sampled over what is not)",
-        "keys and signatures are made with python-ecdsa (RFC 6979, low-S DER), tweaks with hmac/hashlib; "
-        "the code under test verifies with libsecp256k1",
+        "keys and signatures are made with textbook ECDSA (RFC 6979, low-S DER) over python-ecdsa's curve "
+        "arithmetic, tweaks with hmac/hashlib; the code under test verifies with libsecp256k1; the thorough "
+        "tier draws keys from a per-run population of 64 fresh keys",
     ]
     nproc = ctx.pick(4, 8)
     # 1. design checks -----------------------------------------------------------------------
@@ -137,11 +138,12 @@ def run(ctx):
     if missing_kinds:
         raise core.MachineryError("vacuity: corruption kinds never generated: %s" % missing_kinds)
     # quick: every class at least once + a seeded sample; thorough: everything
-    budget = ctx.pick(1600, len(behaviours))
+    budget = ctx.pick(1600, 120000)
     chosen = []
     for c in sorted(classes):
         chosen.append(ctx.rng.choice(classes[c]))
-    rest = [i for i in range(len(behaviours)) if i not in set(chosen)]
+    cs = set(chosen)
+    rest = [i for i in range(len(behaviours)) if i not in cs]
     ctx.rng.shuffle(rest)
     chosen += rest[:max(0, budget - len(chosen))]
     plans, origin = [], []
@@ -155,7 +157,7 @@ def run(ctx):
     res.coverage["behaviours_replayed"] = len(chosen)
     res.coverage["certificates_from_behaviours"] = n_model
     # 3. binding B: random certificates, byte sweep ----------------------------------------------
-    n_rand = ctx.pick(800, 40000)
+    n_rand = ctx.pick(800, 30000)
     plans += [certchain.random_plan(ctx.rng) for _ in range(n_rand)]
     sweep = certchain.sweep_plans(ctx.rng, ctx.pick(1, 8))
     if ctx.quick:
@@ -163,6 +165,10 @@ def run(ctx):
     plans += sweep
     res.coverage["random_certificates"] = n_rand
     res.coverage["byte_sweep_certificates"] = len(sweep)
+    if not ctx.quick:
+        # thorough: keys are drawn from a per-run population instead of being generated per certificate
+        for p in plans[:n_model + n_rand]:
+            p["keyseed"] = ctx.seed
     # 4. the real code -------------------------------------------------------------------------
     traces, pstats = run_plans(ctx, plans, nproc)
     res.coverage["watchdog"] = pstats
@@ -218,6 +224,29 @@ def run(ctx):
                                                            "err": t["err"]}, "verdict": v})
     res.add_validation(stats, accepted)
     res.coverage["observed_verdicts"] = seen
+    # the trace specification must reject doctored observations (self-test of the judge)
+    doctored = []
+    for t in traces:
+        if len(doctored) >= 30:
+            break
+        if verdicts[t["id"]]["ok"] and t["res"]:
+            p = {"id": len(doctored) + 1, "rootkey": t["rootkey"], "targets": t["targets"], "els": t["els"],
+                 "outcome": t["outcome"], "res": [dict(r) for r in t["res"]]}
+            r = p["res"][0]
+            how = len(doctored) % 3
+            if how == 0:
+                r["valid"] = not r["valid"]
+            elif r["valid"]:
+                r["value"] = r["value"][:-2] + ("00" if r["value"][-2:] != "00" else "01")
+            else:
+                others = [e["name"] for e in t["els"] if e["name"] != r["name"]]
+                r["name"] = others[0] if others else "nobody"
+            doctored.append(p)
+    dv, _ = tlc.validate("TraceCertChain", "Trace_CertChain.cfg", doctored, shards=1)
+    slipped = [k for k, v in dv.items() if v["ok"]]
+    if slipped or not doctored:
+        raise core.MachineryError("TraceCertChain accepted %d of %d doctored observations" % (len(slipped), len(doctored)))
+    res.coverage["doctored_traces_rejected"] = len(doctored)
     res.coverage["distinct_abstract_classes_hit"] = len({bclass(behaviours[i]) for i in chosen})
     if seen["valid"] == 0 or seen["invalid"] == 0 or seen["error"] == 0:
         raise core.MachineryError("vacuity: real code never produced one of valid/invalid/error: %s" % seen)
